@@ -206,29 +206,31 @@ Definition InvF (s : sspor) : Prop :=
 Lemma basis_fit_data b d b' : basis_fit b d = inl b' ->
   exists t, b_fit b' = Some t /\ bt_data t = d /\ bk b' = bk b /\ b_user b' = b_user b.
 Proof.
-  unfold basis_fit. destruct (bk b) eqn:Ek; destruct (b_modes b) as [k|]; try discriminate.
-  - destruct (d_rows d <? k); [discriminate|]. intros H; injection H as <-. simpl. eauto.
-  - intros H; injection H as <-. simpl. eauto.
-  - destruct ((d_width d <? k) || (d_rows d <? k)); [discriminate|]. intros H; injection H as <-. simpl. eauto.
-  - intros H; injection H as <-. simpl. eauto.
+  unfold basis_fit. destruct (bk b) eqn:Ek.
+  - destruct (b_user b) as [k|] eqn:Eu.
+    + destruct (d_rows d <? k); [discriminate|]. intros H; injection H as <-. simpl. eauto.
+    + intros H; injection H as <-. simpl. eauto.
+  - destruct (b_modes b) as [k|]; [|discriminate].
+    destruct ((d_width d <? k) || (d_rows d <? k)); [discriminate|]. intros H; injection H as <-. simpl. eauto.
+  - destruct (b_modes b) as [k|]; [|discriminate]. intros H; injection H as <-. simpl. eauto.
 Qed.
 
-Definition fit_ok_cond (b : basis_st) (d : data) : Prop :=
-  b_modes b = b_user b \/ (bk b = Identity /\ b_user b = None /\ b_modes b = Some (d_rows d)).
+(* what a fit needs of the basis state: for SVD / RandomProjection the attribute must be what the user configured; an
+   Identity basis looks at the user's setting only (its default is recomputed from the data of every fit) *)
+Definition fit_ok_cond (b : basis_st) (d : data) : Prop := bk b = Identity \/ b_modes b = b_user b.
 
 Lemma basis_fit_reset b d b' : basis_fit b d = inl b' -> fit_ok_cond b d ->
   exists b'', basis_fit {| bk := bk b; b_modes := b_user b; b_user := b_user b; b_fit := None |} d = inl b'' /\
               b_fit b'' = b_fit b' /\ b_modes b'' = b_modes b' /\ frozen_ok b' (d_rows d).
 Proof.
-  unfold basis_fit, fit_ok_cond, frozen_ok. simpl. intros H [E|(Ek & Eu & Em)].
-  - rewrite <- E. destruct (bk b) eqn:Ek; destruct (b_modes b) as [k|] eqn:Em; try discriminate.
+  unfold basis_fit, fit_ok_cond, frozen_ok. simpl. intros H C. destruct (bk b) eqn:Ek.
+  - destruct (b_user b) as [k|] eqn:Eu.
     + destruct (d_rows d <? k); [discriminate|]. injection H as <-. simpl. eexists; repeat split; eauto.
-    + injection H as <-. simpl. eexists; repeat split; eauto; try (right; repeat split; congruence).
-    + destruct ((d_width d <? k) || (d_rows d <? k)); [discriminate|]. injection H as <-. simpl.
-      eexists; repeat split; eauto.
     + injection H as <-. simpl. eexists; repeat split; eauto.
-  - rewrite Ek, Em in H. rewrite Ek, Eu. rewrite Nat.ltb_irrefl in H. injection H as <-. simpl.
-    eexists; repeat split; eauto; try (right; repeat split; congruence).
+  - destruct C as [C|C]; [discriminate|]. rewrite <- C. destruct (b_modes b) as [k|] eqn:Em; [|discriminate].
+    destruct ((d_width d <? k) || (d_rows d <? k)); [discriminate|]. injection H as <-. simpl. eexists; repeat split; eauto.
+  - destruct C as [C|C]; [discriminate|]. rewrite <- C. destruct (b_modes b) as [k|] eqn:Em; [|discriminate].
+    injection H as <-. simpl. eexists; repeat split; eauto.
 Qed.
 
 (* fit_after_matrix reads only these components *)
@@ -388,7 +390,7 @@ Proof.
       exists s2. split; [reflexivity|]. split; [now rewrite Ho2|].
       destruct (fit_tail_ok _ _ _ E2) as (m2 & _ & _ & _ & Hb2 & _). simpl in Hb2. rewrite Hb2. split; congruence.
     + destruct x as [d|]; [|discriminate]. destruct (d_rows d <? k); [discriminate|].
-      eapply fit_establishes; eauto. left. reflexivity.
+      eapply fit_establishes; eauto. right. reflexivity.
   - (* Observe *)
     destruct (ranked s); injection Hs as <-; auto.
 Qed.
@@ -411,90 +413,31 @@ Proof.
   unfold InvF; simpl; auto.
 Qed.
 
-(* C15 main statement (general form) *)
+(* whatever the history, the basis state is always fit for the next fit: nothing is ever frozen *)
+Lemma invF_op_ok s o : InvF s -> op_ok s o.
+Proof.
+  intro HI. destruct o; simpl; auto. unfold fit_ok_cond. unfold InvF in HI. destruct (ranked s).
+  - destruct HI as ([E|(E & _)] & _); auto.
+  - destruct HI as (E & _). auto.
+Qed.
+
+Lemma run_ops_ok h : forall s s' es, InvF s -> run s h = (s', es) -> Forall (eq None) es -> ops_ok s h.
+Proof.
+  induction h as [|o t IH]; intros s s' es HI Hr Hes; simpl in *; [exact I|].
+  destruct (step s o) as [s1 e] eqn:Es. destruct (run s1 t) as [s2 es2] eqn:Er. injection Hr as <- <-.
+  inversion Hes as [|? ? He Hes']; subst. split; [now apply invF_op_ok|]. simpl.
+  apply (IH s1 s2 es2); auto. eapply step_preserves; eauto. now apply invF_op_ok.
+Qed.
+
+(* C15 main statement: after ANY history of successful operations, on any basis (the Identity default included), the
+   model is what a fresh model configured as the user configured this one becomes when fitted on the data of the last fit *)
 Theorem refit_fresh b bm o v s0 h s es r :
-  ctor b bm o v = inl s0 -> run s0 h = (s, es) -> Forall (eq None) es -> ops_ok s0 h ->
+  ctor b bm o v = inl s0 -> run s0 h = (s, es) -> Forall (eq None) es ->
   ranked s = Some r ->
   exists s', fit (reset s) (bt_data (mt_basis (rt_mat r))) (rt_seed r) = (s', None) /\ obs s' = obs s.
 Proof.
-  intros Hc Hr Hes Hok Hk. pose proof (run_preserves _ _ _ _ (ctor_InvF _ _ _ _ _ Hc) Hr Hes Hok) as HI.
-  unfold InvF in HI. rewrite Hk in HI. destruct HI as (_ & _ & s' & A & B & _). eauto.
-Qed.
-
-(* when the basis was configured with an explicit number of modes (or is not Identity) nothing is ever frozen,
-   and the side condition [ops_ok] holds by itself *)
-Definition no_default (s : sspor) : Prop := b_user (basis s) <> None \/ bk (basis s) <> Identity.
-
-Lemma no_default_modes s : InvF s -> no_default s -> b_modes (basis s) = b_user (basis s).
-Proof.
-  unfold InvF, no_default, frozen_ok. destruct (ranked s).
-  - intros ([H|(A & B & _)] & _) [N|N]; auto; contradiction.
-  - intros (H & _) _. auto.
-Qed.
-
-Lemma basis_fit_user b d b' : basis_fit b d = inl b' -> bk b' = bk b /\ b_user b' = b_user b.
-Proof. intro H. destruct (basis_fit_data _ _ _ H) as (_ & _ & _ & A & B). auto. Qed.
-
-Lemma fit_no_default s d seed s' e : fit s d seed = (s', e) -> no_default s -> no_default s'.
-Proof.
-  unfold fit, no_default. destruct (basis_fit (basis s) d) as [b'|e'] eqn:Eb.
-  - destruct (basis_fit_user _ _ _ Eb) as [A B]. unfold fit_tail. simpl.
-    destruct (matrix_representation b' (n_basis_modes s)) as [m|e2].
-    + unfold fit_after_matrix. simpl.
-      destruct (n_sensors s) as [n0|]; [destruct (ns_auto s); [|destruct (_ <? n0)]|]; simpl;
-      try destruct (optimizer_fit (opt s) _); intros H; injection H as <- <-; simpl; rewrite ?A, ?B; auto.
-    + intros H; injection H as <- <-; simpl. rewrite A, B. auto.
-  - intros H; injection H as <- <-. auto.
-Qed.
-
-Lemma fit_tail_basis s seed s' e : fit_tail s seed = (s', e) -> basis s' = basis s.
-Proof.
-  unfold fit_tail. destruct (matrix_representation (basis s) (n_basis_modes s)) as [m|e2].
-  - unfold fit_after_matrix. simpl.
-    destruct (n_sensors s) as [n0|]; [destruct (ns_auto s); [|destruct (_ <? n0)]|]; simpl;
-    try destruct (optimizer_fit (opt s) _); intros H; injection H as <- <-; reflexivity.
-  - intros H; injection H as <- <-; reflexivity.
-Qed.
-
-Lemma step_no_default s o s' e : step s o = (s', e) -> no_default s -> no_default s'.
-Proof.
-  destruct o as [d seed|v|v x|]; simpl.
-  - apply fit_no_default.
-  - intros H N. destruct (setter_frames _ _ _ _ H) as (Eb & _). unfold no_default. now rewrite Eb.
-  - unfold update_n_basis_modes. destruct (pos_int v) as [k|]; [|intros H; injection H as <- <-; auto].
-    destruct (match b_fit (basis s) with Some _ => match b_modes (basis s) with Some avail => k <=? avail | None => false end | None => false end).
-    + unfold fit_prefit. simpl. destruct (b_fit (basis s)); [|intros H; injection H as <- <-; auto].
-      intros H N. apply fit_tail_basis in H. unfold no_default. now rewrite H.
-    + destruct x as [d|]; [|intros H; injection H as <- <-; auto].
-      destruct (d_rows d <? k); [intros H; injection H as <- <-; auto|].
-      intros H _. eapply fit_no_default; eauto. left. simpl. discriminate.
-  - destruct (ranked s); intros H; injection H as <- <-; auto.
-Qed.
-
-Lemma run_preserves_nd h : forall s s' es, InvF s -> no_default s -> run s h = (s', es) ->
-  Forall (eq None) es -> InvF s'.
-Proof.
-  induction h as [|o t IH]; intros s s' es HI HN Hr Hes; simpl in *.
-  - injection Hr as <- <-. auto.
-  - destruct (step s o) as [s1 e] eqn:Es. destruct (run s1 t) as [s2 es2] eqn:Er. injection Hr as <- <-.
-    inversion Hes as [|? ? He Hes']; subst.
-    apply (IH s1 s2 es2); auto.
-    + eapply step_preserves; eauto. destruct o; simpl; auto. left. now apply no_default_modes.
-    + eapply step_no_default; eauto.
-Qed.
-
-(* C15 for every basis whose number of modes the user fixed (Identity(k), SVD(k), RandomProjection(k)):
-   no side condition at all *)
-Theorem refit_fresh_no_default b bm o v s0 h s es r :
-  ctor b bm o v = inl s0 -> (bm <> None \/ b <> Identity) ->
-  run s0 h = (s, es) -> Forall (eq None) es -> ranked s = Some r ->
-  exists s', fit (reset s) (bt_data (mt_basis (rt_mat r))) (rt_seed r) = (s', None) /\ obs s' = obs s.
-Proof.
-  intros Hc Hnd Hr Hes Hk.
-  assert (N0 : no_default s0).
-  { unfold ctor in Hc. unfold no_default.
-    destruct v; simpl in Hc; try (destruct (0 <? z)%Z); try discriminate; injection Hc as <-; simpl; auto. }
-  pose proof (run_preserves_nd _ _ _ _ (ctor_InvF _ _ _ _ _ Hc) N0 Hr Hes) as HI.
+  intros Hc Hr Hes Hk. pose proof (ctor_InvF _ _ _ _ _ Hc) as H0.
+  pose proof (run_preserves _ _ _ _ H0 Hr Hes (run_ops_ok _ _ _ _ H0 Hr Hes)) as HI.
   unfold InvF in HI. rewrite Hk in HI. destruct HI as (_ & _ & s' & A & B & _). eauto.
 Qed.
 
@@ -516,17 +459,16 @@ Proof.
   repeat split; auto. eexists. split; [exact Hr|]. simpl. auto.
 Qed.
 
-(* the Identity default IS frozen: the faithful model refutes the unrestricted statement *)
+(* the Identity default is recomputed: the history that used to be the counter-example (3 examples, then 5) now ends in
+   the state of a fresh model fitted on the 5 examples *)
 Definition dA := {| d_id := 1; d_rows := 3; d_width := 6 |}.
 Definition dB := {| d_id := 2; d_rows := 5; d_width := 6 |}.
-Example identity_default_frozen_refuted :
-  exists s0 s es r, ctor Identity None OQR VNone = inl s0 /\ run s0 [Fit dA None; Fit dB None] = (s, es) /\
-    Forall (eq None) es /\ ranked s = Some r /\
-    forall s', fit (reset s) (bt_data (mt_basis (rt_mat r))) (rt_seed r) = (s', None) -> obs s' <> obs s.
+Example identity_default_recomputed :
+  exists s0 s es s', ctor Identity None OQR VNone = inl s0 /\ run s0 [Fit dA None; Fit dB None] = (s, es) /\
+    Forall (eq None) es /\ fit s0 dB None = (s', None) /\ obs s' = obs s.
 Proof.
   eexists. eexists. eexists. eexists. split; [reflexivity|]. split; [vm_compute; reflexivity|].
-  split; [repeat constructor|]. split; [reflexivity|].
-  intros s' H. vm_compute in H. injection H as <-. vm_compute. discriminate.
+  split; [repeat constructor|]. split; vm_compute; reflexivity.
 Qed.
 
 (* late rejections inside update_n_basis_modes -> fit DO change the model: refutes "a rejected update call leaves
